@@ -535,3 +535,48 @@ func vfH_c12_decode() {
 	}
 	vfCover("done")
 }
+
+// message Big { int32 a = 70000; string b = 536870911; }  (field numbers beyond 16 bits; 2^29-1 is the largest legal one)
+type Big struct {
+	A int32  `protobuf:"varint,70000,opt,name=a"`
+	B string `protobuf:"bytes,536870911,opt,name=b"`
+}
+
+// H12-bignum: field numbers above 65535 are written in full (the tag is the varint of number<<3|type).
+func vfH_c12_bignum() {
+	v := Big{A: int32(int8(vfByte())), B: vfString(1)}
+	vfAssume(v.A != 0)
+	b, err := proto.Marshal(v)
+	vfAssert(err == nil, "marshal-ok")
+	if err != nil {
+		return
+	}
+	gotA, gotB := false, false
+	ok := true
+	for len(b) > 0 && ok {
+		num, typ, n := protowire.ConsumeTag(b)
+		if n < 0 {
+			ok = false
+			break
+		}
+		b = b[n:]
+		switch {
+		case num == 70000 && typ == protowire.VarintType:
+			x, n := protowire.ConsumeVarint(b)
+			ok = n >= 0 && int32(x) == v.A
+			gotA = true
+			b = b[max(n, 0):]
+		case num == 536870911 && typ == protowire.BytesType:
+			x, n := protowire.ConsumeBytes(b)
+			ok = n >= 0 && string(x) == v.B
+			gotB = true
+			b = b[max(n, 0):]
+		default:
+			ok = false
+		}
+	}
+	vfKnown("F-C12-field-number-16-bits")
+	vfAssert(ok && gotA && gotB, "fields-carry-their-declared-numbers")
+	vfKnownEnd()
+	vfCover("done")
+}
